@@ -31,7 +31,7 @@ def snap(x, depth=0):
     if isinstance(x, (int, float, str, bool, type(None), np.generic)):
         return x
     if isinstance(x, types.FunctionType):
-        return "<function %s>" % x.__name__
+        return "<function %s.%s>" % (x.__module__, x.__qualname__)
     try:
         return copy.deepcopy(x)
     except Exception:
@@ -89,6 +89,16 @@ class Recorder:
             names.append(code.co_varnames[nargs])
         loc = fr.f_locals
         live = {n: loc[n] for n in names if n in loc}
+        # *args / **kwargs containers belong to the callee (fresh tuple / dict); what the CALLER owns
+        # are the objects inside them, so those are tracked individually
+        if flags & 0x04:
+            va = code.co_varnames[code.co_argcount + code.co_kwonlyargcount]
+            for k, v in enumerate(live.pop(va, ())):
+                live["%s[%d]" % (va, k)] = v
+        if flags & 0x08:
+            vk = names[-1]
+            for k, v in dict(live.pop(vk, {})).items():
+                live["%s.%s" % (vk, k)] = v
         rec = {"fn": name, "depth": len(self.stack), "args": {n: snap(v) for n, v in live.items()},
                "_live": live}
         self.stack.append(rec)
